@@ -1,6 +1,8 @@
 HOOK_COMMITS = ["9c96253", "e0c8558"]
 
 ENGINES = [
+    {"name": "kq-trace", "path": "spec/KqueueTrace.tla + harness/cmd/kqrun + harness/simkq/unix + harness/cmd/extract", "serves_properties": ["C17", "C18"],
+     "kind_free_text": "the kqueue backend source compiled on Linux against a simulated kqueue; scenarios replayed, traces validated by TLC against the user-level kqueue specification"},
     {"name": "lin-trace", "path": "spec/LinTrace.tla + harness/cmd/inostress", "serves_properties": ["C07", "C05", "C06"],
      "kind_free_text": "concurrent stress programs under -race; recorded call/return histories are checked for linearizability by TLC"},
     {"name": "ops-trace", "path": "spec/Ops.tla + spec/OpsTrace.tla + spec/MC_Ops.tla + harness/cmd/opsrun + harness/cmd/extract", "serves_properties": ["C15", "C16"],
@@ -56,6 +58,16 @@ CHECKS.update({
               "injectivity on defined bits and blindness to undefined bits are checked as theorems.",
               "Trusted: TLC; strconv.Quote is the uninterpreted quoting function.", "DESIGN.md 6 C16",
               technique="TLA+ executable specification of the renderings evaluated by TLC over the complete low input space, compared with records of the real functions", engine="ops-trace"),
+    "C17": _c("The kqueue backend of the working tree runs on a simulated kqueue; histories of Add/Remove/Close over directories whose contents change (create, write, chmod, truncate, remove, "
+              "rename in/out/over, mkdir, rmdir, rm -r), through plain and symlinked watch paths, are replayed; at every quiescent observation the simulator's open-descriptor set is compared "
+              "with the watch table, their number with the specification's watch set, WatchList with the user's paths; nothing may be open after Close.",
+              "Trusted: TLC, the simulator (harness/simkq/unix) as the kernel; its NOTE_* rules are FreeBSD's documented ones and are calibrated against the repository's recorded kqueue expectations. "
+              "No real BSD kernel is observed. Pre-existing defects of the backend are listed in known-findings.txt.",
+              "DESIGN.md 6 C17", engine="kq-trace"),
+    "C18": _c("Same pipeline: the events delivered for sequential histories inside one or several watched directories (name re-use, overwrite by rename, moves between watched directories, "
+              "bursts of more than ten pending kevents) are matched against the specification's expected events (Create once per new entry, Remove-then-Create for a replaced name, "
+              "union of operations for merged kevents, user spelling of the watched path).",
+              "Trusted as for C17.", "DESIGN.md 6 C18", engine="kq-trace"),
     "C19": _c("Recursive watches over trees whose sibling names share string prefixes (dir1/dir10, sub/sub2, r/a and r/ab): directories created one level at a time, inner renames, "
               "re-creation under a renamed-away name, file operations at every depth, Remove of one of two roots; every event name is compared with the entry's true current path, which the "
               "specification maintains component-wise (Ideal!MoveDir / IsUnder).",
@@ -68,6 +80,4 @@ CHECKS.update({
 })
 
 NOT_APPLICABLE = {
-    "C17": "check under construction (kqueue backend on a simulated kqueue); not claimed yet",
-    "C18": "check under construction (kqueue backend on a simulated kqueue); not claimed yet",
 }
